@@ -4,6 +4,7 @@ package props
 // link-local with a zone) as the gorilla codec and server.go report them.
 
 import (
+	"net/http"
 	"context"
 	"fmt"
 	"net"
@@ -90,7 +91,15 @@ func TestC19Binary(t *testing.T) {
 		}
 		ctx, cancel := context.WithTimeout(context.Background(), 30*time.Second)
 		defer cancel()
-		conn, _, err := websocket.DefaultDialer.Dial("ws://"+target+":"+port+"/", nil)
+		// sometimes the request carries a proxy's X-Forwarded-For header. Whether the pool honours it is its business;
+		// the address it then advertises must be the connection's source or exactly the forwarded one
+		var hdr http.Header
+		forwarded := ""
+		if rapid.IntRange(0, 3).Draw(rt, "forwardedFor") == 0 {
+			forwarded = rapid.SampledFrom([]string{"203.0.113.50", "2001:db8::25", "2001:db8::beef", "::1", "2001:db8:0:1::30", "198.51.100.1, 2001:db8::9"}).Draw(rt, "xff")
+			hdr = http.Header{"X-Forwarded-For": []string{forwarded}}
+		}
+		conn, _, err := websocket.DefaultDialer.Dial("ws://"+target+":"+port+"/", hdr)
 		if err != nil {
 			rt.Fatalf("[setup failed] dial %s: %v", target, err)
 		}
@@ -129,7 +138,17 @@ func TestC19Binary(t *testing.T) {
 					panic(r)
 				}
 			}()
-			checkAdvertised(rt, fmt.Sprintf("handed to a client (host connected from %s, override %q)", ip, override), uri, host.nodeID, wantHost, wantPort, true)
+			wh := wantHost
+			if forwarded != "" && wantHost == ip {
+				// no override host: the forwarded client address (last hop) is acceptable too, intact
+				last := strings.TrimSpace(forwarded[strings.LastIndex(forwarded, ",")+1:])
+				if u, err := ethnode.ParseNodeURI(uri); err == nil {
+					if h, _, err := net.SplitHostPort(u.Host); err == nil && h == last {
+						wh = last
+					}
+				}
+			}
+			checkAdvertised(rt, fmt.Sprintf("handed to a client (host connected from %s, X-Forwarded-For %q, override %q)", ip, forwarded, override), uri, host.nodeID, wh, wantPort, true)
 		}()
 		if strings.Contains(p.log(), "panic:") {
 			rt.Fatalf("pool binary log contains a panic:\n%s", tailLines(p.log(), 40))
